@@ -214,3 +214,85 @@ Proof.
   destruct (label_cut_variant_refuted 200 ltac:(lia)) as (H1 & _ & _ & H4).
   split; [exact H1|]. split; [reflexivity|exact H4].
 Qed.
+
+(* ================================================================================================ *)
+(* C. the parseTime step and parseFractionNanos (wave-3 seed 7)                                      *)
+
+(* The pipeline model runs ParseTime.transform_parse_time (C13's model, imported) in [run_parse_time]; the model of
+   parseFractionNanos is a fixed nine-iteration loop without any indexing.  Stated explicitly: for EVERY content of the
+   time field - every fraction length - the step is not a panic. *)
+Lemma parse_fraction_total : forall frac,
+  match ParseTime.parse_fraction_nanos frac with Panic _ => False | _ => True end.
+Proof. intros [|c [|d ds]]; exact I. Qed.
+
+Lemma parse_time_value_total : forall local_off (v : bytes),
+  match ParseTime.transform_parse_time local_off v with ParseTime.TpPanic _ => False | _ => True end.
+Proof.
+  intros local_off v. pose proof (C13.C13_transform_cases local_off v) as H.
+  destruct (ParseTime.transform_parse_time local_off v); try exact I. exact H.
+Qed.
+
+(* the transform step on a record: whatever bytes the time field holds, with the key inside the field array *)
+Lemma parse_time_step_total : forall local_off loc label cs (p : prec),
+  (loc < length (T.r_fields (fst p)))%nat ->
+  exists cs' p', run_parse_time local_off loc label cs p = Ok (cs', p') /\
+                 length (T.r_fields (fst p')) = length (T.r_fields (fst p)).
+Proof.
+  intros local_off loc label cs p Hl.
+  exact (parse_time_ok local_off (length (T.r_fields (fst p))) loc label cs p Hl eq_refl).
+Qed.
+
+Lemma parse_rfc3339_with_real : forall off t,
+  parse_rfc3339_with ParseTime.parse_fraction_nanos off t = ParseTime.parse_rfc3339 off t.
+Proof. reflexivity. Qed.
+
+(* ---------- the table variant ---------- *)
+
+Ltac frac_case :=
+  cbn [parse_fraction_nanos_table ParseTime.parse_fraction_nanos frac_value fold_left ParseTime.frac_loop length nth_error
+       fraction_digit_nanos Nat.ltb Nat.leb firstn Nat.sub];
+  try reflexivity; try (f_equal; ring).
+
+(* it panics for EVERY fraction of exactly ten characters after the dot ... *)
+Lemma table_variant_panics_at_10 : forall c ds, length ds = 10%nat ->
+  parse_fraction_nanos_table (c :: ds) = Panic site_frac_table.
+Proof.
+  intros c ds H.
+  do 10 (destruct ds as [|? ds]; [discriminate H|]). destruct ds; [|discriminate H].
+  reflexivity.
+Qed.
+
+(* ... and is the real function for every other length (0-9 digits scaled by the table, 11 and more cut to nine) *)
+Lemma table_variant_agrees_elsewhere : forall c ds, length ds <> 10%nat ->
+  parse_fraction_nanos_table (c :: ds) = ParseTime.parse_fraction_nanos (c :: ds).
+Proof.
+  intros c ds H.
+  do 10 (destruct ds as [|? ds]; [frac_case|]).
+  destruct ds as [|? ds]; [exfalso; apply H; reflexivity|].
+  frac_case.
+Qed.
+
+Definition ten_digits : bytes := [49;50;51;52;53;54;55;56;57;49]%N.       (* "1234567891" *)
+
+(* "<13>1 2019-08-15T15:50:49.1234567891+03:00 hostA appB 77 src - hello" *)
+Definition rec_ten_digit_fraction : bytes :=
+  [60;49;51;62;49;32]%N ++ ts_with_fraction ten_digits ++
+  [32; 104;111;115;116;65;32; 97;112;112;66;32; 55;55;32; 115;114;99;32; 45;32; 104;101;108;108;111]%N.
+
+Lemma fraction_table_variant_refuted :
+  (* the real transform: parsed, digits beyond the ninth ignored *)
+  ParseTime.transform_parse_time 0 (ts_with_fraction ten_digits) = ParseTime.TpSet 1565873449 123456789 /\
+  (* the real pipeline delivers the record *)
+  match process_record O (ex_cfg true true) g_init (new_conn (ex_cfg true true)) (1600000000, 0)%Z 0%Z rec_ten_digit_fraction with
+  | Ok (_, _, RPassed 0 [s] _) => s <> []
+  | _ => False
+  end /\
+  (* the variant: index out of range inside the transform *)
+  transform_parse_time_with parse_fraction_nanos_table 0 (ts_with_fraction ten_digits) = ParseTime.TpPanic site_frac_table /\
+  (* nine and eleven digits are fine in the variant: only the length class 10 is affected *)
+  transform_parse_time_with parse_fraction_nanos_table 0 (ts_with_fraction (firstn 9 ten_digits)) = ParseTime.TpSet 1565873449 123456789 /\
+  transform_parse_time_with parse_fraction_nanos_table 0 (ts_with_fraction (ten_digits ++ [50]%N)) = ParseTime.TpSet 1565873449 123456789.
+Proof.
+  split; [vm_compute; reflexivity|]. split; [vm_compute; discriminate|].
+  repeat split; vm_compute; reflexivity.
+Qed.
